@@ -192,6 +192,62 @@ func (w *treeWorld) exec(r *Run, line string) {
 		w.upd = tree.NewUpdatableTree(w.sqldb, "")
 		w.rootsByIdx, w.bnByIdx, w.sparse = map[uint64]common.Hash{}, map[uint64]uint64{}, map[uint32]common.Hash{}
 		r.Emit(line, "ok")
+	case "par":
+		// `par <k> <n>`: k independent trees (own database each) are filled concurrently, as the node's syncers do; every
+		// tree must end with the contract root of its own leaves and serve verifying proofs (no shared state between trees)
+		k, n := int(bigOf(ws[1]).Uint64()), int(bigOf(ws[2]).Uint64())
+		type res struct{ bad string }
+		out := make(chan res, k)
+		for t := 0; t < k; t++ {
+			go func(t int) {
+				dir, err := os.MkdirTemp(r.OutDir, "partree")
+				must(err)
+				defer os.RemoveAll(dir)
+				path := filepath.Join(dir, "t.sqlite")
+				must(treemig.RunMigrations(path))
+				sq, err := db.NewSQLiteDB(path)
+				must(err)
+				defer sq.Close()
+				ao := tree.NewAppendOnlyTree(sq, "")
+				var ref depTree
+				var leaves []common.Hash
+				for i := 0; i < n; i++ {
+					leaf := crypto.Keccak256Hash([]byte{byte(t), byte(i), byte(i >> 8), 0x77})
+					tx, err := db.NewTx(context.Background(), sq)
+					must(err)
+					if err := ao.AddLeaf(tx, uint64(i+1), 0, treetypes.Leaf{Index: uint32(i), Hash: leaf}); err != nil {
+						tx.Rollback()
+						out <- res{fmt.Sprintf("tree %d: AddLeaf(%d) failed: %v", t, i, err)}
+						return
+					}
+					must(tx.Commit())
+					ref.add(leaf)
+					leaves = append(leaves, leaf)
+				}
+				last, err := ao.GetLastRoot(nil)
+				if err != nil || last.Hash != ref.root() {
+					out <- res{fmt.Sprintf("tree %d: last root %s (err=%v), the contract algorithm over its own %d leaves gives %s", t, last.Hash.Hex(), err, n, ref.root().Hex())}
+					return
+				}
+				for _, i := range []int{0, n / 2, n - 1} {
+					proof, err := ao.GetProof(context.Background(), uint32(i), last.Hash)
+					if err != nil || refCalcRoot(leaves[i], proof[:], uint32(i)) != last.Hash {
+						out <- res{fmt.Sprintf("tree %d: the proof served for position %d does not verify against its last root (err=%v)", t, i, err)}
+						return
+					}
+				}
+				out <- res{}
+			}(t)
+		}
+		obs := "par ok"
+		for t := 0; t < k; t++ {
+			if x := <-out; x.bad != "" {
+				obs = "par bad"
+				r.Fail("[C01,C08] trees filled concurrently: "+x.bad, []string{"new", line})
+			}
+		}
+		r.Evals += k * n
+		r.Emit(line, obs)
 	case "begin":
 		if w.tx != nil {
 			r.Emit(line, "bad-op")
